@@ -8,6 +8,7 @@ run_race(case, scratch) writes a track directory for `case`, installs
 then runs `esrally race --pipeline=benchmark-only --track-path=... ...` via rally.dispatch_sub_command() and returns a Trace.
 """
 import contextlib
+import gc
 import glob
 import io
 import json
@@ -230,6 +231,10 @@ def run_race(case, scratch, extra_args=(), faults=None, instrument=None):
     tr.exit_status = None
     tr.exception = None
     _random.seed(case["seed"])
+    # cyclic garbage is collected between races, never at an allocation-count-dependent moment inside one: finalisers (closing of
+    # suspended coroutines, aiohttp's __del__ warnings) would otherwise run at points that depend on the history of the process
+    gc.collect()
+    gc.disable()
     try:
         with contextlib.redirect_stdout(out), contextlib.redirect_stderr(out):
             try:
@@ -255,11 +260,21 @@ def run_race(case, scratch, extra_args=(), faults=None, instrument=None):
             if not k.budget_exceeded:
                 k.drain(300.0)
     finally:
+        # nothing of this race may survive into the next race of the same process (see VThread.reap)
+        try:
+            with contextlib.redirect_stdout(out), contextlib.redirect_stderr(out):
+                for vt in list(k.threads):
+                    vt.reap()
+                gc.collect()
+        except BaseException:  # noqa - teardown only
+            pass
         for u in reversed(undo):
             try:
                 u()
             except Exception:
                 pass
+        gc.collect()
+        gc.enable()
     tr.console = out.getvalue()
     tr.race_id = race_id
     tr.race_file = None
